@@ -24,7 +24,7 @@ def showRows (t : List Int) : String := if t.isEmpty then "e" else String.interc
 def showTbl (t : Tbl) : String := toString t.1 ++ "/" ++ showRows t.2
 
 def nFiles : Nat := 4
-def nTemps : Nat := 2
+def nTemps : Nat := 3   -- tt0, tt1 and (number 2) the STDIN table
 
 def showState (s : State Tbl) : String :=
   let files := (List.range nFiles).map fun p =>
@@ -113,6 +113,11 @@ def c01stepCore (s : State Tbl) (cmd : String) (args : List String) : State Tbl 
           (r.1, showOut r.2 ++ "|" ++ showState r.1)
     | _, _, _ => bad
   | "create", [p] => match p.toNat? with | some p => run (.create p (0, [])) | none => bad
+  | "dstdin", [c] =>
+    -- data piped in at the start of the run: the STDIN table exists from now on, its restore point is the data
+    match parseRows c with
+    | some r => run (.declareTemp 2 (0, r))
+    | none => bad
   | "dtemp", [t] => match t.toNat? with | some t => run (.declareTemp t (0, [])) | none => bad
   | "dmltemp", [t, k, a] => match t.toNat?, a.toInt? with | some t, some a => run (.dmlTemp t (dmlFn k a)) | _, _ => bad
   | "commit", [] => run .commit
